@@ -188,6 +188,10 @@ func (db *DB) sendToWriteCh(entries []*kv.Entry, waitOnThrottle bool) (*request,
 
 	if err := db.enqueueCommitRequest(cr); err != nil {
 		req.wg.Done()
+		// The request was never queued: the caller keeps ownership of the
+		// entries (every caller releases its own reference on error), so the
+		// request must not release them as well.
+		req.Entries = nil
 		req.DecrRef()
 		commitReqPool.Put(cr)
 		return nil, err
